@@ -2002,6 +2002,18 @@ impl<'a> CompileState<'a> {
                     identifier, fields, ..
                 } = struct_ast.as_ref();
 
+                // Same rule as for struct literals in code: no declared field may be left out.
+                if let Some(missing) = struct_def
+                    .iter()
+                    .find(|def| !fields.iter().any(|(name, _)| name.inner == def.identifier.inner))
+                {
+                    let note = format!(
+                        "field `{}` of `struct {}` is missing from the struct literal",
+                        missing.identifier.inner, identifier
+                    );
+                    return Err(self.err(NotDefined(note, struct_ast.span())));
+                }
+
                 Ok(ConstValue::Struct(ConstStruct {
                     name: identifier.inner.clone(),
                     fields: {
